@@ -1,7 +1,7 @@
 (* C02 — the property clauses, stated on what Builder.fly returns, for every oracle pair that behaves like a
    valid performance table and any geodesic. *)
 From Coq Require Import ZArith List Bool Lia Reals Lra PrimFloat.
-From AV Require Import lib.Num lib.FloatMath model.C02_Model proofs.C02_Container proofs.C02_Builder.
+From AV Require Import lib.Num lib.FloatMath model.C02_Model proofs.C02_Container proofs.C02_Interp proofs.C02_Builder.
 Import ListNotations.
 Local Open Scope R_scope.
 
@@ -18,7 +18,11 @@ Definition valid_oracle (perf : oracle) (inside : envelope) : Prop :=
   (forall k r a m v, perf k r a m = Some v -> inside r a m = true) /\
   (forall k a m t r f, perf k Climb a m = Some (t, r, f) -> 0 < r /\ 0 < t) /\
   (forall k a m t r f, perf k Descend a m = Some (t, r, f) -> r < 0 /\ 0 < t) /\
-  (forall k a m t r f, perf k Cruise a m = Some (t, r, f) -> 0 < t /\ 0 <= f).
+  (forall k a m t r f, perf k Cruise a m = Some (t, r, f) -> 0 < t /\ 0 <= f) /\
+  (* the code takes sqrt(tas^2 - rocd^2) and divides by the fuel load: a table with |rocd| >= tas or zero cruise fuel
+     flow would give nan / inf in numpy where Coq's total functions give numbers; such tables are excluded *)
+  (forall k rl a m t r f, perf k rl a m = Some (t, r, f) -> Rabs r < t) /\
+  (forall k a m t r f, perf k Cruise a m = Some (t, r, f) -> 0 < f).
 
 Notation flight := (@C02_Model.flight RNum).
 Notation result := (@C02_Model.result RNum).
@@ -50,7 +54,7 @@ Section Main.
       (it = true -> Rabs (r_residual res) < tol) /\
       (forall m, c_given c = Some m -> it = false -> r_start_mass res = m).
   Proof.
-    destruct valid as (V1 & V2 & V3 & V4). destruct ret as (N1 & N2 & N3 & Hf).
+    destruct valid as (V1 & V2 & V3 & V4 & _ & _). destruct ret as (N1 & N2 & N3 & Hf).
     eapply fly_facts; eauto.
   Qed.
 
@@ -137,6 +141,57 @@ Section Main.
     specialize (Hm m Hg Hi). split; auto. rewrite A. exact Hm.
   Qed.
 
+  (* ---- resampling a RETURNED trajectory (its hand-over points are stored twice: the time axis is only weakly
+     increasing) ---- *)
+  Let pts := points (r_traj res).
+  Let times := map (@p_time RNum) pts.
+
+  Theorem main_times_weakly_increasing : weakly_increasing times.
+  Proof.
+    unfold times. apply (weakly_increasing_map pt (@p_time RNum) pt0). intros i Hi.
+    destruct (main_time_and_distance_nondecreasing i (S i) ltac:(lia) Hi) as (A & _). exact A.
+  Qed.
+
+  Lemma nth_map_lt : forall (g : pt -> R) i, (i < length pts)%nat -> nth i (map g pts) 0 = g (nth i pts pt0).
+  Proof.
+    intros g i Hi. rewrite (nth_indep (map g pts) 0 (g pt0)) by (rewrite map_length; auto). apply map_nth.
+  Qed.
+
+  (* at a stored time interpolate_time gives, for every field g, the value of the last point carrying that time
+     (the point itself unless it is the first copy of a hand-over point) *)
+  Theorem main_resample_at_stored_time : forall (nan : R) (g : pt -> R) i, (i < length pts)%nat ->
+    exists j, (i <= j)%nat /\ (j < length pts)%nat /\ p_time (nth j pts pt0) = p_time (nth i pts pt0) /\
+      (S j = length pts \/ p_time (nth i pts pt0) < p_time (nth (S j) pts pt0)) /\
+      @interp RNum nan times (map g pts) (p_time (nth i pts pt0)) = g (nth j pts pt0).
+  Proof.
+    intros nan g i Hi.
+    assert (Hl : length times = length (map g pts)) by (unfold times; rewrite !map_length; auto).
+    assert (Hi' : (i < length times)%nat) by (unfold times; rewrite map_length; auto).
+    destruct (resample_at_stored_time_weak nan times (map g pts) i Hl main_times_weakly_increasing Hi')
+      as (j & A & B & C & D & E).
+    assert (Hj : (j < length pts)%nat) by (unfold times in B; rewrite map_length in B; auto).
+    exists j. unfold times in *. rewrite !nth_map_lt in * by auto.
+    split; auto. split; auto. split; auto. split.
+    - destruct D as [D|D]; [left; rewrite map_length in D; auto|].
+      destruct (le_lt_dec (length pts) (S j)) as [Hn|Hn]; [left; lia|right].
+      rewrite nth_map_lt in D by auto. exact D.
+    - rewrite nth_map_lt in E by auto. exact E.
+  Qed.
+
+  (* strictly between two neighbouring stored times: the linear interpolation of the neighbouring values *)
+  Theorem main_resample_between : forall (nan : R) (g : pt -> R) i x, (S i < length pts)%nat ->
+    p_time (nth i pts pt0) < x < p_time (nth (S i) pts pt0) ->
+    @interp RNum nan times (map g pts) x =
+      (g (nth (S i) pts pt0) - g (nth i pts pt0)) / (p_time (nth (S i) pts pt0) - p_time (nth i pts pt0))
+      * (x - p_time (nth i pts pt0)) + g (nth i pts pt0).
+  Proof.
+    intros nan g i x Hi Hx.
+    assert (Hl : length times = length (map g pts)) by (unfold times; rewrite !map_length; auto).
+    assert (Hi' : (S i < length times)%nat) by (unfold times; rewrite map_length; auto).
+    pose proof (resample_between_weak nan times (map g pts) i x Hl main_times_weakly_increasing Hi') as H.
+    unfold times in H. rewrite !nth_map_lt in H by lia. apply H. exact Hx.
+  Qed.
+
   (* with mass iteration the leftover trip fuel, relative to the fuel load, is within the tolerance *)
   Theorem main_mass_iteration_tolerance : it = true ->
     Rabs (p_fuel (last (points (r_traj res)) pt0) / r_total_fuel res) < tol.
@@ -156,11 +211,11 @@ Theorem main_destination_above_cruise_refused : forall (perf : oracle) (geo : ge
   @fly RNum perf geo fixed gsp wx gfix f given it mi tol = Err ESchedule.
 Proof. intros. unfold fly. rewrite destination_above_cruise_refused; auto. Qed.
 
-Theorem main_too_short_refused : forall (perf : oracle) (geo : geodesic) (gsp : wind) wx (step total : R) m (p : pt) kp kg,
+Theorem main_negative_cruise_leg_is_refused : forall (perf : oracle) (geo : geodesic) (gsp : wind) wx (step total : R) m (p : pt) kp kg,
   step < 0 -> exists e, @crz_loop RNum perf geo gsp wx step total (S m) p kp kg = Err e.
 Proof. intros. apply too_short_refused; auto. Qed.
 
-Theorem main_outside_envelope_refused : forall (perf : oracle) (geo : geodesic) (gsp : wind) wx rl (lhv start delta total : R) m (idx : R) (p : pt) kp kg,
+Theorem main_refused_state_ends_level_change : forall (perf : oracle) (geo : geodesic) (gsp : wind) wx rl (lhv start delta total : R) m (idx : R) (p : pt) kp kg,
   perf kp rl (start + idx * delta) (p_mass p) = None ->
   @lc_loop RNum perf geo gsp wx rl lhv start delta total m idx p kp kg = Err EPerf.
 Proof. intros. apply outside_envelope_refused_lc; auto. Qed.
@@ -213,3 +268,20 @@ Proof. eexists. split; [vm_compute; reflexivity|vm_compute; reflexivity]. Qed.
 Example time_order_with_last_point_handover :
   exists ts, w_times true = Some ts /\ sorted_f ts = true /\ length ts = 241%nat.
 Proof. eexists. split; [vm_compute; reflexivity|split; vm_compute; reflexivity]. Qed.
+
+(* ---- non-vacuity of [returned] with mass iteration and with a starting mass handed in (binary64; the per-loop
+        examples over R are in proofs/C02_Nonvacuous.v; a whole flight over R is not exhibited) ---- *)
+Definition w_outcome (given : option float) (it : bool) (tol : float) : option (nat * float * float) :=
+  match @fly FNum w_perf w_geo true (fun _ _ => None) false true w_flight given it 8 tol with
+  | Ok r => Some (length (points (r_traj r)), r_start_mass r, r_residual r)
+  | Err _ => None
+  end.
+
+Example returned_with_mass_iteration :
+  exists n sm r, w_outcome None true 0.01%float = Some (n, sm, r) /\ n = 241%nat /\
+    PrimFloat.ltb (PrimFloat.abs r) 0.01%float = true.
+Proof. do 3 eexists. split; [vm_compute; reflexivity|]. split; vm_compute; reflexivity. Qed.
+
+Example returned_with_given_starting_mass :
+  exists n r, w_outcome (Some 70000%float) false 0.01%float = Some (n, 70000%float, r) /\ n = 241%nat.
+Proof. do 2 eexists. split; vm_compute; reflexivity. Qed.
